@@ -75,6 +75,8 @@ type Sim struct {
 	reloadsRej   int
 	cache        *stepCache
 	graveyard    map[string]*QSpec
+	gang         map[string]*gangWatch
+	groupLeak    map[string]Res
 	lastReload   reloadResult
 }
 
@@ -92,6 +94,8 @@ var (
 	reAppID = regexp.MustCompile(`app-\d+`)
 	reNode  = regexp.MustCompile(`node ([A-Za-z0-9]+)`)
 	reQueue = regexp.MustCompile(`queue (root[A-Za-z0-9_.@-]*)`)
+	reUser  = regexp.MustCompile(`user ([a-z]+)`)
+	reGroup = regexp.MustCompile(`group ([a-z*]+)`)
 )
 
 // taintOf: does the violation concern an application whose history contains one of the known
@@ -128,6 +132,20 @@ func (s *Sim) taintOf(msg string) string {
 				if a.Queue == m[1] || strings.HasPrefix(a.Queue, m[1]+".") {
 					apps[id] = true
 				}
+			}
+		}
+	}
+	for _, m := range reUser.FindAllStringSubmatch(msg, -1) {
+		for id, a := range s.shim.Apps {
+			if a.User == m[1] {
+				apps[id] = true
+			}
+		}
+	}
+	for _, m := range reGroup.FindAllStringSubmatch(msg, -1) {
+		for id, a := range s.shim.Apps {
+			if m[1] == "*" || contains(a.Groups, m[1]) {
+				apps[id] = true
 			}
 		}
 	}
